@@ -74,22 +74,65 @@ opaque!(ServiceInfo);
 opaque!(ObjectId);
 opaque!(State);
 
-// ProtocolVersion: (major, minor); the ordering used by the version gates is left OPAQUE here (gates are C12's
-// subject), so every handler contract in these units holds for either outcome of a version comparison.
+// ProtocolVersion: (major, minor) with the lexicographic order that #[derive(PartialOrd)] gives the real struct
+// (core/src/protocol_version.rs; the Kani obligation C12.epoch_mapping exercises the real derived comparisons for all
+// values). ASSUMED: derived PartialEq/PartialOrd = field-wise equality / lexicographic order.
 #[derive(Clone, Copy)]
 pub struct ProtocolVersion { pub major: u32, pub minor: u32 }
 impl ProtocolVersion {
     pub const V1_16: Self = Self { major: 1, minor: 16 };
     pub const V1_19: Self = Self { major: 1, minor: 19 };
+
+    pub open spec fn lex_cmp(a: Self, b: Self) -> core::cmp::Ordering {
+        if a.major < b.major { core::cmp::Ordering::Less } else if a.major > b.major { core::cmp::Ordering::Greater }
+        else if a.minor < b.minor { core::cmp::Ordering::Less } else if a.minor > b.minor { core::cmp::Ordering::Greater }
+        else { core::cmp::Ordering::Equal }
+    }
+
+    // a message kind introduced in protocol 1.<min_minor> may be sent to a connection of this version
+    // (min_minor == 0: part of the base protocol, always allowed)
+    pub open spec fn allows(&self, min_minor: u32) -> bool {
+        min_minor == 0 || Self::lex_cmp(*self, ProtocolVersion { major: 1, minor: min_minor }) != core::cmp::Ordering::Less
+    }
+}
+impl PartialEqSpecImpl for ProtocolVersion {
+    open spec fn obeys_eq_spec() -> bool { true }
+    open spec fn eq_spec(&self, other: &Self) -> bool { self.major == other.major && self.minor == other.minor }
 }
 impl PartialEq for ProtocolVersion {
     #[verifier::external_body]
     fn eq(&self, other: &Self) -> (r: bool) { unimplemented!() }
 }
+impl PartialOrdSpecImpl for ProtocolVersion {
+    open spec fn obeys_partial_cmp_spec() -> bool { true }
+    open spec fn partial_cmp_spec(&self, other: &Self) -> Option<core::cmp::Ordering> { Some(Self::lex_cmp(*self, *other)) }
+}
 impl PartialOrd for ProtocolVersion {
     #[verifier::external_body]
     fn partial_cmp(&self, other: &Self) -> (r: Option<core::cmp::Ordering>) { unimplemented!() }
 }
+
+// Messages: every message type names the protocol minor version that introduced its kind (0 = base protocol).
+// VersionedMessage carries that number as ghost information; ConnectionState::send REQUIRES that the connection's
+// negotiated version allows it. This encodes "the broker never sends a connection a message kind newer than its
+// negotiated version" as a precondition of the (assumed) send primitive, checked at every call site of a verified handler.
+pub trait IntoMessage {
+    spec fn min_minor() -> u32;
+}
+impl VersionedMessage {
+    pub uninterp spec fn min_minor(&self) -> u32;
+
+    #[verifier::external_body]
+    pub fn new<T: IntoMessage>(msg: T, version: Option<ProtocolVersion>) -> (r: Self)
+        ensures r.min_minor() == T::min_minor()
+    { unimplemented!() }
+
+    #[verifier::external_body]
+    pub fn with_version<T: IntoMessage>(msg: T, version: ProtocolVersion) -> (r: Self)
+        ensures r.min_minor() == T::min_minor()
+    { unimplemented!() }
+}
+
 #[verifier::external_body]
 #[verifier::reject_recursive_types(T)]
 pub struct UnboundedSender<T> { _p: core::marker::PhantomData<T> }
